@@ -130,6 +130,42 @@ class Scratch:
         shutil.rmtree(self.path, ignore_errors=True)
 
 
+def repo_tests_with_contracts(res, prop, tests, deselect=()):
+    """One more workload for the runtime contracts: the repository's own (single-threaded) tests, run by pytest with
+    vf.contracts_plugin.  A contract firing inside a test is a violation (mechanism contract-fired-in-repo-test); zero
+    evaluations or a pytest that could not run is reported as a note, never as held."""
+    import subprocess
+    import sys
+    import tempfile
+    fd, rep = tempfile.mkstemp(prefix='vf-cr-', suffix='.json', dir='/dev/shm' if os.path.isdir('/dev/shm') else None)
+    os.close(fd)
+    cmd = [sys.executable, '-m', 'pytest', '-q', '-p', 'no:cacheprovider', '-p', 'vf.contracts_plugin', '--timeout=120', *tests]
+    for d in deselect:
+        cmd += ['--deselect', d]
+    env = dict(os.environ, VF_CONTRACT_REPORT=rep)
+    try:
+        p = subprocess.run(cmd, cwd=REPO_ROOT, env=env, capture_output=True, text=True, timeout=600)
+        with open(rep) as f:
+            r = json.load(f)
+    except Exception as e:
+        res.notes.append(f'repo tests with contracts could not run: {type(e).__name__}: {e}')
+        return None
+    finally:
+        try:
+            os.unlink(rep)
+        except OSError:
+            pass
+    n = r['evaluations'].get(prop, 0)
+    res.count('repo_tests_run_with_contracts', r.get('tests', 0))
+    res.count('contract_evaluations_inside_repo_tests', n)
+    for f_ in r['fired']:
+        if f_['contract'] == prop:
+            res.violation('contract-fired-in-repo-test', f"{f_['test']} ({f_['phase']}): {f_['detail']}", {'repo_test': f_['test']})
+    if r.get('failed') and not r['fired']:
+        res.notes.append(f"{r['failed']} repository test(s) failed under the contracts plugin without a contract firing: {p.stdout[-300:]}")
+    return r
+
+
 def quiet_logging():
     import logging
     logging.disable(logging.CRITICAL)
